@@ -1031,22 +1031,24 @@ def _expr(cfg, rng):
 
 TREE_LEAVES = ['id', 'scale', 'mult', 'const', 'square', 'sin', 'proxl1',
                'proxl2sq', 'proxl2g', 'proxlinf', 'proxbox', 'proxccl1',
-               'proxtrans', 'zero']
+               'proxtrans', 'zero', 'stencil', 'stencil']
 
 
-def _gen_tree(rng, depth):
+def _gen_tree(rng, depth, leaves=None):
+    leaves = leaves or TREE_LEAVES
     if depth == 0 or rng.random() < 0.25:
-        return ['leaf', rng.choice(TREE_LEAVES), rng.getrandbits(16)]
+        return ['leaf', rng.choice(leaves), rng.getrandbits(16)]
     op = rng.choice(['add', 'add', 'sub', 'sub', 'lscal', 'lscal', 'rscal',
                      'comp', 'lvec', 'rvec', 'neg', 'vecadd', 'div'])
     if op in ('add', 'sub', 'comp'):
-        return [op, _gen_tree(rng, depth - 1), _gen_tree(rng, depth - 1)]
+        return [op, _gen_tree(rng, depth - 1, leaves),
+                _gen_tree(rng, depth - 1, leaves)]
     if op in ('lscal', 'rscal', 'div'):
         return [op, rng.choice([2.0, 0.5, -1.0, 0.0, 1.0, -0.25, 3.0]),
-                _gen_tree(rng, depth - 1)]
+                _gen_tree(rng, depth - 1, leaves)]
     if op in ('lvec', 'rvec', 'vecadd'):
-        return [op, rng.getrandbits(16), _gen_tree(rng, depth - 1)]
-    return [op, _gen_tree(rng, depth - 1)]
+        return [op, rng.getrandbits(16), _gen_tree(rng, depth - 1, leaves)]
+    return [op, _gen_tree(rng, depth - 1, leaves)]
 
 
 def _build_tree(t, S, cfg):
@@ -1085,6 +1087,20 @@ def _build_tree(t, S, cfg):
             return F.L1Norm(S).convex_conj.proximal(0.7)
         if kind == 'proxtrans':
             return F.L2Norm(S).translated(SP.rand_elem(S, g)).proximal(0.7)
+        if kind == 'stencil':
+            # an S -> S operator whose _call is *not* safe for out is x
+            # (reads neighbours / rows after writing): exposes wrappers that
+            # hand it aliased arguments on their own
+            if isinstance(S, o.DiscretizedSpace):
+                if salt % 2:
+                    return o.Laplacian(S, pad_mode='symmetric')
+                return o.PartialDerivative(S, axis=0, method='central',
+                                           pad_mode='order0')
+            if len(S.shape) == 1:
+                n = S.shape[0]
+                A = g.standard_normal((n, n))
+                return o.MatrixOperator(A, domain=S, range=S)
+            return o.ScalingOperator(S, 1.5)
         raise HarnessError(kind)
     if op == 'add':
         return _build_tree(t[1], S, cfg) + _build_tree(t[2], S, cfg)
@@ -1131,7 +1147,12 @@ def _expr_tree(cfg, rng):
     nonlinear and proximal leaves, built with the overloaded operators so
     that odl picks the expression classes and merges scalars itself."""
     S = space(cfg, rng, want='real', maxsize=6)
-    tree = optf(cfg, rng, 'tree', lambda r: _gen_tree(r, r.randint(1, 3)))
+    # C10 covers proximals and the listed alias-safe building blocks only:
+    # a stencil leaf is itself not safe for out is x, so it is left out there
+    leaves = [l for l in TREE_LEAVES if l != 'stencil'] \
+        if cfg.get('c10_only') else TREE_LEAVES
+    tree = optf(cfg, rng, 'tree',
+                lambda r: _gen_tree(r, r.randint(1, 3), leaves))
     cfg['treestr'] = tree_str(tree)
     return _build_tree(tree, S, cfg)
 
@@ -1180,6 +1201,8 @@ def gen_recipe(rng, c10_only=False):
     weights = [RECIPES[n]['weight'] for n in names]
     name = rng.choices(names, weights)[0]
     cfg = {'recipe': name, 'seed': rng.getrandbits(32)}
+    if c10_only:
+        cfg['c10_only'] = True
     fam = RECIPES[name]['fam']
     if not c10_only and fam not in ('functional', 'proximal', 'ufunc'):
         cfg['derive'] = rng.choice(DERIVE_CHOICES)
